@@ -620,6 +620,8 @@ struct Exec {
     tree: BTreeMap<String, Vec<u8>>,
     order: Option<String>,
     escaped: Vec<String>,
+    /// the write fault this execution ran under, and whether it fired
+    write_fault: Option<(String, bool)>,
 }
 
 impl Engine for GenEngine {
@@ -749,6 +751,18 @@ impl Engine for GenEngine {
             }
             // a fraction of the executions runs under strace: every file-creating system call is checked
             let traced = ctx.chance(1, 4);
+            // disk faults: the k-th write to a regular file fails (disk full from then on, or one
+            // I/O error), is interrupted, or is short. Never in the first execution (the reference).
+            // (kept outside the sandbox, which is searched for files the generator must not create)
+            let fault_log = root.with_file_name(format!("{}-x{}-write-faults.log", root.file_name().map(|n| n.to_string_lossy().to_string()).unwrap_or_default(), x));
+            let write_fault: Option<String> = if x > 0 && !traced && ctx.chance(1, 4) {
+                let kind = ctx.with_tape(|t| *t.pick(&["enospc", "eio", "eintr", "short"]));
+                let k = 1 + ctx.with_tape(|t| t.size(60));
+                ctx.count("fault.write_fault_configured");
+                Some(format!("{}:{}", kind, k))
+            } else {
+                None
+            };
             let trace_file = xdir.join("strace.txt");
             let warm = !use_cli && ctx.chance(1, 2);
             let warm_out = xdir.join("warmup-out");
@@ -804,6 +818,9 @@ impl Engine for GenEngine {
                 .current_dir(&cwd);
             for (k, v) in &noise {
                 cmd.env(k, v);
+            }
+            if let Some(wf) = &write_fault {
+                cmd.env("VERIF_WRITE_FAULT", wf).env("VERIF_FAULT_LOG", &fault_log);
             }
             let label = format!(
                 "x{} entry={} hash_seed={} clock={} out={:?}{} noise={}",
@@ -863,6 +880,23 @@ impl Engine for GenEngine {
             let tree = read_tree(&out_abs);
             let order = stdout.lines().find_map(|l| l.strip_prefix("ORDER ")).map(|s| s.to_string());
             ctx.log(|| format!("exec {} -> ok={} files={} order={:?} escaped={:?} stderr={:?}", label, ok, tree.len(), order, escaped, stderr));
+            let write_fault = write_fault.map(|wf| {
+                let fired = std::fs::read_to_string(&fault_log).map(|t| !t.is_empty()).unwrap_or(false);
+                if fired {
+                    ctx.count(match wf.split(':').next().unwrap_or("") {
+                        "enospc" => "fault.disk_full_fired",
+                        "eio" => "fault.write_io_error_fired",
+                        "eintr" => "fault.write_eintr_fired",
+                        _ => "fault.short_file_write_fired",
+                    });
+                }
+                (wf, fired)
+            });
+            let _ = std::fs::remove_file(&fault_log);
+            let label = match &write_fault {
+                Some((wf, fired)) => format!("{} write_fault={}{}", label, wf, if *fired { " (fired)" } else { " (not reached)" }),
+                None => label,
+            };
             execs.push(Exec {
                 label,
                 ok,
@@ -870,6 +904,7 @@ impl Engine for GenEngine {
                 tree,
                 order,
                 escaped,
+                write_fault,
             });
         }
         let _ = std::fs::remove_dir_all(&root);
@@ -884,6 +919,12 @@ impl Engine for GenEngine {
                 ctx.violation("C20", "created_outside_output_directory", format!("{} created {:?}", e.label, e.escaped));
             }
         }
+        // an execution that met a disk fault may fail; what it may not do is report success with
+        // other bytes (it stays in the comparison when it reports success)
+        let before_n = execs.len();
+        execs.retain(|e| !(matches!(&e.write_fault, Some((_, true))) && !e.ok));
+        ctx.count_n("probe.write_fault_reported_as_failure", (before_n - execs.len()) as u64);
+        ctx.count_n("probe.write_fault_survived_with_success", execs.iter().filter(|e| matches!(&e.write_fault, Some((_, true)))).count() as u64);
         let oks = execs.iter().filter(|e| e.ok).count();
         if oks == 0 {
             ctx.count("probe.generation_refused_by_all_executions");
@@ -911,7 +952,13 @@ impl Engine for GenEngine {
                 let only_b: Vec<&&String> = b.iter().filter(|k| !a.contains(k)).collect();
                 ctx.violation(
                     "C20",
-                    if cli_vs_lib { "file_sets_differ:cli_vs_lib" } else { "file_sets_differ:same_entry" },
+                    if matches!(&e.write_fault, Some((_, true))) {
+                        "file_sets_differ:success_reported_after_write_fault"
+                    } else if cli_vs_lib {
+                        "file_sets_differ:cli_vs_lib"
+                    } else {
+                        "file_sets_differ:same_entry"
+                    },
                     format!("[{}] vs [{}]: only in first {:?}, only in second {:?}", first.label, e.label, only_a, only_b),
                 );
             } else {
@@ -933,7 +980,17 @@ impl Engine for GenEngine {
                 };
                 ctx.violation(
                     "C20",
-                    format!("contents_differ:{}:{}", class, if cli_vs_lib { "cli_vs_lib" } else { "same_entry" }),
+                    format!(
+                        "contents_differ:{}:{}",
+                        class,
+                        if matches!(&e.write_fault, Some((_, true))) {
+                            "success_reported_after_write_fault"
+                        } else if cli_vs_lib {
+                            "cli_vs_lib"
+                        } else {
+                            "same_entry"
+                        }
+                    ),
                     format!(
                         "[{}] vs [{}]: file {} differs at byte {}: {:?} vs {:?}",
                         first.label,
